@@ -155,6 +155,18 @@ def body_cli(case, rec):
             raise Violation(f"asm-format reported {got}, brute force finds {sorted(exp)}")
         if want and "Overlaps detected in assembly" not in res.stderr:
             raise Violation("missing 'Overlaps detected' header on stderr")
+        # the same file given twice under one stem (v1/in.agp v2/in.agp): every file's overlaps are reported
+        if want:
+            (d / "v1").mkdir()
+            (d / "v2").mkdir()
+            (d / "v1" / "in.agp").write_text(text)
+            (d / "v2" / "in.agp").write_text(text)
+            res2 = remap.run_cli_subprocess([d / "v1" / "in.agp", d / "v2" / "in.agp", "--qc-overlaps", "-o", d / "out2.agp"], script="asm_format")
+            if res2.returncode != 0:
+                raise Violation(f"asm-format with two input files failed: {res2.stderr[-300:]}")
+            n2 = res2.stderr.count("\nOverlap:\n")
+            if n2 != 2 * len(want):
+                raise Violation(f"two input files with {len(want)} overlapping pairs each: {n2} pairs reported")
     finally:
         remap.rmtree(d)
 
